@@ -200,7 +200,7 @@ fn qclass_table_all_codes() {
         Ok(q) => {
             assert!(u16::from(q) == v);
             assert!((v == 255) == (q == QCLASS::ANY));
-            if v != 255 { assert!(q == QCLASS::CLASS(CLASS::try_from(v).unwrap())); }
+            if v != 255 { assert!(q == QCLASS::CLASS(CLASS::try_from(v).unwrap())); assert!(q == QCLASS::from(CLASS::try_from(v).unwrap())); }
         }
         Err(_) => assert!(v != 255 && CLASS::try_from(v).is_err()),
     }
@@ -216,6 +216,7 @@ fn qtype_table_all_codes() {
                 && (v == 254) == (q == QTYPE::MAILA) && (v == 255) == (q == QTYPE::ANY));
             if !(251..=255).contains(&v) {
                 assert!(q == QTYPE::TYPE(TYPE::from(v)));
+                assert!(q == QTYPE::from(TYPE::from(v)));
                 assert!(!matches!(TYPE::from(v), TYPE::Unknown(_)));
             }
         }
